@@ -1,4 +1,5 @@
 pub mod gen_bmca;
+pub mod gen_c07;
 pub mod gen_fml;
 pub mod gen_inst;
 pub mod inst;
